@@ -10,7 +10,7 @@
   `apply_measurement_controlled_gate`, the reset Kraus pair).  `backends_agree` proves, for every circuit, register mix,
   setting and script, that it returns `ρ(T) = ∏ (1 + g_i)/2` for the tableau `T` the stabilizer loop returns, with the same
   classical record.  What remains testing on this side: that the floating-point numpy code computes what `dmRunH` denotes
-  (compared per circuit at 1e-9), see the note before `backends_agree`.
+  (compared per circuit at 1e-8, and the builders exhaustively for n ≤ 4), see the note before `backends_agree`.
 -/
 import GraphiqModel.Proofs.Circuit
 import GraphiqModel.Proofs.Clifford1
